@@ -99,6 +99,7 @@ class Check:
             seenk.add(key)
             print('KNOWN-FINDING: property=%s site=%s family=%s %s' % (self.pid, k['site'], k['family'], v['desc']), flush=True)
         code = 0
+        new.sort(key=lambda v: (not v.get('confirmed', True), v['site']))
         if self.inconclusive:
             code = 2
             for r in self.inconclusive[:10]:
@@ -111,7 +112,9 @@ class Check:
                 continue
             seen.add(key)
             if not v.get('confirmed', True):
-                print('ENGINE-DISAGREEMENT: property=%s %s (solver counterexample did not reproduce natively)' % (self.pid, v['desc']), flush=True)
+                self._ndis = getattr(self, '_ndis', 0) + 1
+                if self._ndis <= 5:
+                    print('ENGINE-DISAGREEMENT: property=%s %s (solver counterexample did not reproduce natively)' % (self.pid, v['desc'][:400]), flush=True)
                 code = max(code, 2)
                 continue
             if len(vio_paths) < 12:
